@@ -14,4 +14,4 @@ N_QUICK, N_THOROUGH = 110, 3000
 
 def run(ctx, replay=None):
     return pc.run_property(ctx, "C11", pc.mon_c11, GEN, N_QUICK, N_THOROUGH, replay=replay, rule=RULE,
-                           assumptions=[pc.PFCP_NOTE], finding_sig=pc.sig_c11, directed=None)
+                           assumptions=[pc.PFCP_NOTE], finding_sig=pc.sig_c11, directed=pc.directed_c11)
